@@ -27,6 +27,7 @@ import KafkaVerif.Base.Proto
 import KafkaVerif.Model.WriterClose
 import KafkaVerif.Model.ReaderClose
 import KafkaVerif.Model.GroupRun
+import KafkaVerif.Model.GroupConns
 import KafkaVerif.Model.TransportConnC17
 import KafkaVerif.Model.FetcherLife
 
@@ -472,41 +473,24 @@ def parseItem (t : String) : Option Item :=
   | ["cClose", n] => n.toNat?.map .cclose
   | _ => (parseEv t).map .ev
 
-/-- connections the `run` goroutine may hold in a quiescent phase of its loop: none (every path through
-`coordinator()`, `nextGeneration` and `leaveGroup` — answered, rejected or failed — closes what it opened) -/
-def quiescentPC : PC → Bool
-  | .exited | .backoffP _ | .coord 0 _ => true   -- `coord 0`: a new `coordinator()` lookup starts
-  | _ => false
-
-/-- steps of the `run` goroutine that leave a quiescent phase -/
-def _root_.KV.Group.Ev.runLoop' : Ev → Bool
-  | .connectRes _ | .backoff _ | .runExit => true
-  | _ => false
-
-/-- deterministic acceptance: fold `step` (D9-repaired code) over the events; the connections opened so far and not
-yet closed are tracked beside the model state and must be none whenever the model reaches a quiescent phase -/
+/-- deterministic acceptance: fold `GroupConns.stepC` (GroupRun's `step`, D9-repaired code, extended with what the
+code does to its coordinator connections at each step) over the ordered log of hook events and dialer journal lines;
+a connection that is not closed before `run` starts the next lookup, ends a back-off or returns is a rejected event -/
 def replay (nw : Nat) (items : List (String × Item)) : String × Option St := Id.run do
   let cfg : Group.Cfg := ⟨nw, true⟩
-  let mut s : St := {}
-  let mut opn : List Nat := []
+  let mut s : GroupConns.CS := {}
   let mut i := 0
   for (raw, it) in items do
-    match it with
-    | .copen n => opn := n :: opn
-    | .cclose n => opn := opn.erase n
-    | .ev e =>
-      -- checked when the goroutine *leaves* a quiescent phase or exits: by then the deferred / trailing Close calls
-      -- of the previous phase have run
-      if quiescentPC s.pc && e.runLoop' && !opn.isEmpty then
-        return (s!"conns-open@{i}:{raw}:{opn.length}", none)
-      match Group.step cfg s e with
-      | some s' =>
-        s := s'
-        if s'.pc == .exited && !opn.isEmpty then
-          return (s!"conns-open@{i}:{raw}:{opn.length}", none)
-      | none => return (s!"reject@{i}:{raw}", none)
+    let e : GroupConns.CEv := match it with | .copen _ => .copen | .cclose _ => .cclose | .ev e => .ev e
+    match GroupConns.stepC cfg s e with
+    | some s' => s := s'
+    | none =>
+      let why := if (Group.step cfg s.g (match it with | .ev e => e | _ => .runExit)).isSome then "conns-owed" else "reject"
+      return (s!"{why}@{i}:{raw}:open={s.owedOpen},close={s.owedClose}", none)
     i := i + 1
-  return ("ok", some s)
+  if s.g.pc == .exited && (s.opened != s.closed) then
+    return ("exited-with-connections", none)
+  return ("ok", some s.g)
 
 /-- C09 monitor on the raw event list: Close returns after `run` exited; the member id held last was sent in a
 LeaveGroup before; nothing but refused `Next` calls after Close returned -/
